@@ -21,6 +21,6 @@ const ReclHarness::Cfg cfgs[] = {
   CFG("he_d2_2_1", he_d2, false, 2, true, 4, true),
 };
 ReclHarness h("recl_a", cfgs, sizeof(cfgs) / sizeof(cfgs[0]));
-struct Reg { Reg() { xsim::register_harness(&h); xsim::probe_name(1, "hp_exhausted"); hx::register_reclaimer_probes(); } } reg;
+struct Reg { Reg() { xsim::register_harness(&h); xsim::probe_name(1, "hp_exhausted"); xsim::probe_name(3, "destructor run by the reclaimer unlinked and retired a shared object"); hx::register_reclaimer_probes(); } } reg;
 } // namespace
 XSIM_MAIN()
